@@ -211,10 +211,16 @@ func (tm *terms) closure(name string) map[string]bool {
 	return d.closed
 }
 
-// weakQuery assembles "assumptions and not goal" with only the definitions
-// in the cone of influence; merged path conditions (pc!N) are left
-// uninterpreted (a sound weakening: more models).
-func (tm *terms) weakQuery(assumptions []smt.Term, goal smt.Term, getValues []string) string {
+// weakCase is one implication "assumptions => goal" of a weak query.
+type weakCase struct {
+	as   []smt.Term
+	goal smt.Term
+}
+
+// weakQuery assembles a query that is unsat iff every case is valid, with
+// only the definitions in the cone of influence; merged path conditions
+// (pc!N) are left uninterpreted (a sound weakening: more models).
+func (tm *terms) weakQuery(cases []weakCase) string {
 	var b strings.Builder
 	b.WriteString("(set-logic QF_AUFBV)\n")
 	visited := map[string]bool{}
@@ -250,12 +256,13 @@ func (tm *terms) weakQuery(assumptions []smt.Term, goal smt.Term, getValues []st
 			visit(k)
 		}
 	}
-	for _, a := range assumptions {
-		visitTerm(a.S)
-	}
-	visitTerm(goal.S)
-	for _, g := range getValues {
-		visitTerm(g)
+	var disj []smt.Term
+	for _, c := range cases {
+		for _, a := range c.as {
+			visitTerm(a.S)
+		}
+		visitTerm(c.goal.S)
+		disj = append(disj, smt.And(append(append([]smt.Term{}, c.as...), smt.Not(c.goal))...))
 	}
 	for changed := true; changed; {
 		changed = false
@@ -269,13 +276,7 @@ func (tm *terms) weakQuery(assumptions []smt.Term, goal smt.Term, getValues []st
 			}
 		}
 	}
-	for _, a := range assumptions {
-		b.WriteString("(assert " + a.S + ")\n")
-	}
-	b.WriteString("(assert " + smt.Not(goal).S + ")\n(check-sat)\n")
-	if len(getValues) > 0 {
-		b.WriteString("(get-value (" + strings.Join(getValues, " ") + "))\n")
-	}
+	b.WriteString("(assert " + smt.Or(disj...).S + ")\n(check-sat)\n")
 	return b.String()
 }
 
